@@ -13,3 +13,8 @@ uint64_t vr_next(void)
 	if (fscanf(vr_f, "%llu", &v) != 1) { printf("REPLAY-EXHAUSTED\n"); exit(5); }
 	return (uint64_t)v;
 }
+int vr_fill(void)
+{
+	const char *p = getenv("VERIF_FILL");
+	return p ? atoi(p) : 0;
+}
